@@ -446,9 +446,8 @@ def getitem(it, base, key, node):
     if isinstance(base, type):
         from .interp import SUBSCRIPT_MODELS
 
-        meta_raw, owner = it.static_lookup(type(base), "__getitem__")
-        if meta_raw is not M and id(meta_raw) in it.target_ids:
-            return it.call(BoundMethod(meta_raw, base), [key], {}, node)
+        # K[...] inside a function under verification (also the recursive
+        # calls of a metaclass __getitem__ itself) goes through the contract
         for k, fn in SUBSCRIPT_MODELS.items():
             if issubclass(base, k):
                 return fn(it, base, key)
